@@ -57,6 +57,49 @@ def prepare_scratch(unit, repo, scratch):
         open(os.path.join(dst, '.cargo', 'config.toml'), 'w').write('[net]\noffline = true\n')
         root = scratch
         crate = dst
+    elif cfg['mode'] == 'lifted-crate':
+        # a generated package outside /repo and /verif: real lber (scratch copy, path dependency), whole files copied
+        # unchanged (L3), single items lifted verbatim by name (fn / enum / impl), a hand-written lib.rs prelude and the
+        # harness module.  Nothing in the copied or lifted text is edited.
+        shutil.copytree(os.path.join(repo, 'lber'), os.path.join(scratch, 'lber'), ignore=shutil.ignore_patterns('target'))
+        crate = os.path.join(scratch, 'kx')
+        os.makedirs(os.path.join(crate, 'src'))
+        os.makedirs(os.path.join(crate, '.cargo'))
+        open(os.path.join(crate, '.cargo', 'config.toml'), 'w').write('[net]\noffline = true\n')
+        open(os.path.join(crate, 'Cargo.toml'), 'w').write(cfg['cargo_toml'])
+        shutil.copy(os.path.join(repo, 'Cargo.lock'), os.path.join(crate, 'Cargo.lock'))
+        udir = os.path.join(VERIF, 'contracts', unit)
+        for src_rel, dst_rel in cfg.get('copy_files', {}).items():
+            sp = os.path.join(repo, src_rel)
+            if not os.path.exists(sp):
+                raise lift.LiftError('%s: %s missing' % (unit, src_rel))
+            txt = open(sp).read()
+            prov['files'][src_rel] = {'sha256': hashlib.sha256(txt.encode()).hexdigest(), 'copied_whole_to': dst_rel}
+            open(os.path.join(crate, dst_rel), 'w').write(txt)
+        for dst_rel, spec in cfg.get('lift_items', {}).items():
+            out = [spec.get('header', '')]
+            for it in spec['items']:
+                sp = os.path.join(repo, it['file'])
+                src = open(sp).read()
+                km = lift.mask(src)
+                kw = {'fn': r'\bfn\s+', 'enum': r'\benum\s+', 'struct': r'\bstruct\s+'}[it['kind']]
+                ms = [m for m in lift.code_finditer(src, km, kw + re.escape(it['name']) + r'\b')]
+                if len(ms) != 1:
+                    raise lift.LiftError('%s: item %s %s found %d times in %s' % (unit, it['kind'], it['name'], len(ms), it['file']))
+                a = ms[0].start()
+                ls = src.rfind('\n', 0, a) + 1
+                b = src.index('{', a)
+                while km[b] != lift.CODE:
+                    b = src.index('{', b + 1)
+                e = lift.match_close(src, km, b)
+                text = src[ls:e + 1]
+                prov['contracts'].append({'file': it['file'], 'item': '%s %s' % (it['kind'], it['name']),
+                                          'sha256': hashlib.sha256(text.encode()).hexdigest(), 'lines': '%d-%d' % (src.count('\n', 0, ls) + 1, src.count('\n', 0, e) + 1)})
+                out.append(text)
+            open(os.path.join(crate, dst_rel), 'w').write('\n\n'.join(out) + '\n')
+        shutil.copy(os.path.join(udir, 'lib.rs'), os.path.join(crate, 'src', 'lib.rs'))
+        shutil.copy(os.path.join(udir, 'harness.rs'), os.path.join(crate, 'src', 'harness.rs'))
+        return crate, cfg, prov
     else:
         raise RuntimeError('unknown mode')
     text = open(os.path.join(VERIF, 'contracts', unit, 'harness.rs')).read()
